@@ -242,6 +242,16 @@ class TrainerProp(core.Prop):
                 if rng.random() < 0.3:
                     script["warm"] = rng.randrange(10 ** 6)     # the trainer object was used before (run_episode)
                 yield self._case(kind, script, horizon, pm, tkind)
+            # what the small scopes never reach: episodes of more than 500 steps (written to the trainer's log),
+            # with an agent and the simulation finishing after step 500
+            for _ in range(2 if quick else 10):
+                n = rng.randint(2, 4)
+                late = rng.randint(501, 520)
+                script = {"n": n, "learning": [True] * n,
+                          "doneAt": [rng.choice([late - 3, 1000000]) for _ in range(n)],
+                          "finishAt": late, "noms": []}
+                pm = [rng.randrange(2) for _ in range(n)]
+                yield self._train_case(rng.randrange(2), script, late + rng.randint(5, 40), pm, 1)
             # DebugTrainer.train: several episodes in a row with an explicit horizon
             for _ in range(150 if quick else 5000):
                 kind = rng.randrange(3)
